@@ -75,6 +75,11 @@ def c13_session(binary, plan, positions, delays=None):
         searched = False
         for (name, value, pos, go) in plan:
             r = {"option": name, "value": value, "between_searches": searched, "verdict": "held"}
+            # every other value is set AFTER the position was given: the search that follows must still be about that position
+            position_first = zlib.crc32(f"{value}/{name}".encode()) % 2 == 0
+            if position_first:
+                e.send(position_cmd(pos["root"], pos["moves"]))
+                r["position_first"] = True
             n_before = e.n_out()
             e.send(f"setoption name {name} value {value}")
             ok = settle(e, 60.0)
@@ -94,7 +99,7 @@ def c13_session(binary, plan, positions, delays=None):
                 results.append(r)
                 break  # violated or inconclusive: never reuse an engine whose answer went missing (a late answer would be
                 # attributed to the next question)
-            if zlib.crc32(f"{name}={value}".encode()) % 3 == 0:
+            if not position_first and zlib.crc32(f"{name}={value}".encode()) % 3 == 0:
                 # what a GUI does after changing options between games
                 r["then_ucinewgame"] = True
                 e.send("ucinewgame")
@@ -103,7 +108,8 @@ def c13_session(binary, plan, positions, delays=None):
                     r.update({"verdict": v, "signature": f"c13.{sig}.ucinewgame", "what": text})
                     results.append(r)
                     break
-            e.send(position_cmd(pos["root"], pos["moves"]))
+            if not position_first:
+                e.send(position_cmd(pos["root"], pos["moves"]))
             n = e.n_out()
             cpu0 = e.cpu_ns()
             e.send(go)
@@ -214,6 +220,8 @@ def c13_stage(out, tier, seed):
             for r in res:
                 stats["values"] += 1
                 stats["between" if r.get("between_searches") else "first"] += 1
+                if r.get("position_first"):
+                    out.features["values_set_after_the_position_command"] = out.features.get("values_set_after_the_position_command", 0) + 1
                 if r.get("refused_first"):
                     out.features["values_refused_in_the_bestmove_window_then_set_again"] = out.features.get("values_refused_in_the_bestmove_window_then_set_again", 0) + 1
                 if r.get("then_ucinewgame"):
@@ -649,6 +657,47 @@ def c14_stage(out, tier, seed):
         elif r["verdict"] == "inconclusive":
             out.add_inconclusive({"stage": "timed-release", "what": r["what"]})
 
+    # The clock runs from 'go', not from whenever the search thread gets going. The search thread is held up (hook H3,
+    # before it takes the tables - as a busy machine or a still-locked table would hold it up) for LONGER than the whole
+    # clock; when it wakes up every limit has passed, so it may finish the iteration it must make and nothing more. Judged
+    # on what it reports, not on a stopwatch: a correct engine reports depth 1 only.
+    def late_start_session(clock, delay):
+        e = Engine(binary, {"VERIF_UCI_DELAYS": f"go.before_lock={delay}"})
+        try:
+            e.send("setoption name Hash value 16")
+            if not settle(e, 60.0):
+                return {"verdict": "inconclusive", "what": "engine not ready"}
+            pos = roomy_positions[1 % len(roomy_positions)]
+            e.send(position_cmd(pos["root"], pos["moves"]))
+            n = e.n_out()
+            go = f"go wtime {clock} btime {clock}"
+            e.send(go)
+            got = e.wait_line(lambda x: x.startswith("bestmove"), n, 90.0)
+            if got is None:
+                v, sig, text = crash_or_hang(e, f"{go} with the search thread held up for {delay} ms")
+                return {"verdict": v, "signature": f"c14.{sig}", "what": text}
+            with e.cv:
+                depths = [int(x.split()[2]) for _, x in e.out_lines[n:got[0]] if x.startswith("info depth") and x.split()[2].isdigit()]
+            r = {"verdict": "held", "max_depth": max(depths or [0])}
+            if r["max_depth"] >= 3:
+                r.update({"verdict": "violated", "signature": "c14.clock-not-charged-before-search-start",
+                          "what": f"'{go}' with the search thread held up for {delay} ms before it could start (longer than the whole clock): it "
+                                  f"then went on to think up to depth {r['max_depth']} instead of answering at once - the time before the search "
+                                  f"starts is not charged to the clock"})
+            return r
+        finally:
+            e.close()
+
+    for clock, delay in ([(1000, 1300), (300, 500), (5000, 5400)] if thorough else [(1000, 1300), (300, 500)]):
+        r = late_start_session(clock, delay)
+        out.evaluations += 1
+        out.features["timed_searches_whose_thread_started_after_the_clock_ran_out"] = out.features.get("timed_searches_whose_thread_started_after_the_clock_ran_out", 0) + 1
+        out.extra["x_max_depth_reported_after_late_start"] = max(out.extra.get("x_max_depth_reported_after_late_start", 0), r.get("max_depth", 0))
+        if r["verdict"] == "violated":
+            out.add_violation("timed-release", r["signature"], r["what"], {"kind": "py", "check": "c14-late", "clock": clock, "delay": delay})
+        elif r["verdict"] == "inconclusive":
+            out.add_inconclusive({"stage": "timed-release", "what": r["what"]})
+
     mt_cases = []
     # middlegame-like positions far from the fifty-move boundary, so that the search cannot run out of depth
     roomy = [p for p in positions if int(p["fen"].split()[4]) < 40 and sum(c.isalpha() for c in p["fen"].split()[0]) >= 12] or positions
@@ -833,13 +882,20 @@ def c08_session(binary, plan):
             e.send(position_cmd(pos["root"], pos["moves"]))
             n = e.n_out()
             # every third search carries a time limit as well as the depth limit: both bind
-            e.send(f"go depth {depth}" + GO_SUFFIX[k % 3 if depth <= 4 else 0])
+            if isinstance(depth, str):
+                e.send(f"go {depth}")  # no depth limit at all
+            else:
+                e.send(f"go depth {depth}" + GO_SUFFIX[k % 3 if depth <= 4 else 0])
             got = e.wait_line(lambda x: x.startswith("bestmove"), n, 120.0)
             if got is None:
-                break
+                # the lines reported so far are still judged; a crash is reported to the stage as such
+                v, sig, text = crash_or_hang(e, f"'go {depth}' on {pos['fen']}")
+                with e.cv:
+                    got = (len(e.out_lines), "")
+                blocks.append((pos, depth, ["crash" if v == "violated" else "silent", sig, text]))
             with e.cv:
                 lines = [x for _, x in e.out_lines[n:got[0]]]
-            blk = [f"search\t{pos['root']}\t{pos['moves']}\t{depth}"]
+            blk = [f"search\t{pos['root']}\t{pos['moves']}\t{'-' if isinstance(depth, str) else depth}"]
             for x in lines:
                 m = INFO_RE.match(x)
                 if m:
@@ -847,6 +903,8 @@ def c08_session(binary, plan):
                 elif x.startswith("info depth"):
                     blk.append(f"info\t{x.split()[2]}\tcp\t0\t")  # a line without pv: the oracle flags the empty line
             blocks.append((pos, depth, blk))
+            if got[1] == "":
+                break  # never reuse an engine whose answer went missing
     finally:
         e.close()
     return blocks
@@ -882,14 +940,28 @@ def c08_stage(out, tier, seed):
         pos = {"root": f, "moves": "", "fen": f, "legal": []}
         for b in (bins if thorough else bins[:1]):
             sessions.append((b, [(pos, d if b[0] == "release" else min(d, 36) - 6, False)]))
+    # no depth limit and a tree that collapses: iterative deepening runs through every depth it has (1..255) within
+    # milliseconds and then has to stop counting
+    for f in ["8/8/8/2k5/8/8/1p6/1K6 w - - 0 1", "8/8/8/4k3/8/8/8/4K2B w - - 0 1", "8/8/8/4k3/8/8/8/4K3 b - - 0 1"]:
+        pos = {"root": f, "moves": "", "fen": f, "legal": []}
+        for b in bins:
+            sessions.append((b, [(pos, "movetime 150", False), (pos, "wtime 3000 btime 3000", False)]))
     with ThreadPoolExecutor(max_workers=10) as ex:
         results = list(ex.map(lambda s: (s[0][0], c08_session(s[0][1], s[1])), sessions))
     all_blocks = []
     owners = []
     for bname, blocks in results:
         for (pos, depth, blk) in blocks:
+            if blk and blk[0] in ("crash", "silent"):
+                if blk[0] == "crash":
+                    out.add_violation(f"lines-binary-{bname}", f"c08.binary.{blk[1]}", blk[2], {"kind": "py", "check": "c08", "binary": bname, "pos": pos, "depth": depth})
+                else:
+                    out.add_inconclusive({"stage": f"lines-binary-{bname}", "what": blk[2]})
+                continue
             all_blocks.extend(blk)
             owners.append((bname, pos, depth))
+            if isinstance(depth, str) and any(x.startswith("info\t255\t") for x in blk):
+                out.features["binary_searches_running_out_of_depths"] = out.features.get("binary_searches_running_out_of_depths", 0) + 1
             longest = max([len(x.split("\t")[4].split()) for x in blk if x.startswith("info\t") and len(x.split("\t")) > 4] or [0])
             out.extra["x_longest_reported_line_plies"] = max(out.extra.get("x_longest_reported_line_plies", 0), longest)
             if longest >= 32:
@@ -947,10 +1019,13 @@ def c11_stage(out, tier, seed):
             if not settle(e, 60):
                 out.add_inconclusive({"stage": f"repetition-{bname}", "what": "engine not ready"})
                 return
-            for k, g in enumerate(gs):
-                depth = (1, 3, 5, 2)[k % 4]
-                e.send("ucinewgame")
-                e.send(position_cmd(g["root"], g["moves"]))
+            for k, g in enumerate(x for g0 in gs for x in (g0, dict(g0, again=True))):
+                depth = (1, 3, 5, 2)[(k // 2) % 4]
+                if not g.get("again"):
+                    e.send("ucinewgame")
+                    e.send(position_cmd(g["root"], g["moves"]))
+                # (again: a second 'go' on the same 'position' command, as an analysis GUI restarts a search - the engine
+                # must still know the game that led here)
                 n = e.n_out()
                 e.send(f"go depth {depth}")
                 got = e.wait_line(lambda x: x.startswith("bestmove"), n, 120.0)
@@ -974,6 +1049,8 @@ def c11_stage(out, tier, seed):
                     key = "binary_repetition_" + g["class"].replace("-", "_").replace(".", "_")
                     out.features[key] = out.features.get(key, 0) + 1
                     out.features["binary_repetition_searches"] = out.features.get("binary_repetition_searches", 0) + 1
+                    if g.get("again"):
+                        out.features["binary_repetition_second_go_on_one_position_command"] = out.features.get("binary_repetition_second_go_on_one_position_command", 0) + 1
                     mv = got[1].split()[1] if len(got[1].split()) > 1 else "?"
                     if mv not in g["legal"]:
                         out.add_violation(f"repetition-{bname}", "c11.binary.illegal-bestmove", f"'{got[1]}' after {position_cmd(g['root'], g['moves'])}",
@@ -983,7 +1060,7 @@ def c11_stage(out, tier, seed):
                     elif (score[0] == "cp" and score[1] < 0) or (score[0] == "mate" and score[1] < 0):
                         out.add_violation(f"repetition-{bname}", "c11.binary.repetition-against-game-record-missed." + g["class"].split(".")[0],
                                           f"after '{position_cmd(g['root'], g['moves'])}' the move {g['rep_move']} re-creates a position of the game "
-                                          f"record ({g['class']}), i.e. a draw, but 'go depth {depth}' reports score {score[0]} {score[1]} (bestmove {mv})",
+                                          f"record ({g['class']}), i.e. a draw, but {'a second ' if g.get('again') else ''}'go depth {depth}' reports score {score[0]} {score[1]} (bestmove {mv})",
                                           {"kind": "py", "check": "c11", "binary": bname, "game": g, "depth": depth})
         finally:
             e.close()
@@ -1108,25 +1185,29 @@ def c12_stage(out, tier, seed):
         target = None if i % 3 == 2 else r.choice(positions)
         depth = r.choice([4, 5, 6, 7])
         hash_mb = r.choice([1, 2, 16])
-        # fresh engine
+        # fresh engine. In every fourth comparison it gets no preamble whatsoever - no uci, no isready, no option: the very
+        # first thing it hears is the position and 'go' (default options on both sides of the comparison)
+        bare = i % 4 == 3
         a = Engine(binary)
-        a.send(f"setoption name Hash value {hash_mb}")
-        settle(a, 60)
+        if not bare:
+            a.send(f"setoption name Hash value {hash_mb}")
+            settle(a, 60)
         ta = transcript(a, target, depth)
         a.close()
         # engine with a history, then ucinewgame. Half of the comparisons hold the window between
         # "bestmove printed" and "search thread done" open (hook H3), with ucinewgame sent at once.
         delayed = i % 2 == 1
         b = Engine(binary, {"VERIF_UCI_DELAYS": "go.after_bestmove=30,go.after_latch_set=30"} if delayed else None)
-        b.send(f"setoption name Hash value {hash_mb}")
-        settle(b, 60)
+        if not bare:
+            b.send(f"setoption name Hash value {hash_mb}")
+            settle(b, 60)
         hist = []
         lost = False
         # in every third history a different Hash value is sent right after one of the bestmoves. In the delayed sessions
         # this engine refuses it (the finished search thread still holds the tables); either way the engine after
         # ucinewgame must equal a fresh one with the options in force - the refused value or, if the engine chose to
         # apply it after all, the new one
-        new_hash = r.choice([x for x in (1, 2, 16, 32) if x != hash_mb]) if i % 3 == 1 else None
+        new_hash = r.choice([x for x in (1, 2, 16, 32) if x != hash_mb]) if (i % 3 == 1 and not bare) else None
         refused = False
         n_hist = r.randint(1, 6)
         opt_at = r.randrange(n_hist)
@@ -1159,6 +1240,8 @@ def c12_stage(out, tier, seed):
         with lock:
             out.evaluations += 1
             out.features["binary_ucinewgame_comparisons"] = out.features.get("binary_ucinewgame_comparisons", 0) + 1
+            if bare:
+                out.features["binary_fresh_engine_without_any_preamble"] = out.features.get("binary_fresh_engine_without_any_preamble", 0) + 1
             if target is None:
                 out.features["binary_ucinewgame_then_go_without_position"] = out.features.get("binary_ucinewgame_then_go_without_position", 0) + 1
             if new_hash is not None:
@@ -1234,7 +1317,7 @@ def replay(pid, rec, path):
         # Generic replay: the workloads are functions of (seed, tier), so the recorded case is re-created by
         # re-running the stage it came from with the recorded seed, and looking for the same signature.
         stage_fn = {"c05": None, "c08": c08_stage, "c12": c12_stage, "c12-bench": c12_stage, "c14-movetime": c14_stage,
-                    "c14-long": c14_stage, "c14-refused": c14_stage, "c17-ep": c17_stage, "c17": c17_stage, "c13": c13_stage,
+                    "c14-long": c14_stage, "c14-refused": c14_stage, "c14-late": c14_stage, "c17-ep": c17_stage, "c17": c17_stage, "c13": c13_stage,
                     "c11": c11_stage}.get(check)
         if stage_fn is None:
             print(f"no replay procedure for process-level check {check}")
